@@ -42,6 +42,8 @@ func propC01(c *Ctx) {
 	c.ruleC14CycleGuard()
 	c.ruleCursorReadBounds()
 	c.ruleRegexExampleProbed("C01-REGEX-EXAMPLE-PROBED")
+	// a deferred recover covers the goroutine it runs in and no other
+	c.ruleSequentialAs("C01-NO-GOROUTINES")
 }
 
 // ---------- helpers: which functions are (inside) reachable declared functions ----------
